@@ -5,5 +5,9 @@ CONSTANTS
   Sequential = FALSE
   Mode = "mc"
   EmitTR = TRUE
+  Api = "spawn"
+  WCaps = {1, 3}
+  WriteAll = TRUE
+  SpawnWaits = FALSE
 INVARIANTS Delivered InOrder
-PROPERTY Terminates
+PROPERTIES Terminates Returns
